@@ -1,17 +1,31 @@
 """C12 — monotonic fitting terminates with the same result under every thread schedule.
-Proof: PsV/Props/C12.lean about the transition system PsV.Sync (model of the REPAIRED hand-shake, fixes/C12-1.diff):
-  C12_inv_preserved, C12_invariants, C12_no_deadlock, C12_results_ready_when_read, C12_no_data_race,
-  C12_rank_decreases, C12_terminates, C12_result_is_sequential, C12_result_schedule_independent,
-  C12_result_worker_count_independent; for the code as published: C12_lost_wakeup_reachable, C12_unrepaired_deadlocks.
+Proof: PsV/Props/C12.lean (31 theorems) about the transition system PsV.Sync and its data-carrying refinement
+PsV.Sync.DState (Model/SyncData.lean):
+  safety      C12_inv_preserved, C12_invariants, C12_results_ready_when_read, C12_no_data_race, C12_no_step_before_create,
+              C12_teardown_safe
+  liveness    C12_no_deadlock, C12_rank_decreases, C12_terminates, C12_step_bound, C12_no_infinite_execution,
+              C12_maximal_run_completes, C12_progress_measure, C12_strongly_fair_terminates; weak fairness is not enough:
+              C12_spurious_cycle, C12_weak_fairness_not_enough, C12_weakly_fair_infinite_execution
+  result      C12_result_is_sequential, C12_select_spec, C12_result_schedule_independent, C12_result_worker_count_independent,
+              C12_data_refines_control, C12_compute_inputs_stable, C12_scanned_records, C12_data_result_is_sequential,
+              C12_data_schedule_and_worker_count_independent, C12_each_trial_evaluated_once, C12_blocks_started
+  published   C12_lost_wakeup_reachable, C12_unrepaired_deadlocks; finding C12_factor_update_depends_on_worker_count
 Tie: the real cholesky_solve.c compiled with the forced-include shim harness/c12_shim.h; every pthread call yields to the
 deterministic scheduler in harness/c12_harness.cpp (real threads, one runnable at a time).
   (a) code -> model: traces under seeded random / PCT / starvation / non-preemptive schedules (and a sample of the harness's
-      own bounded-preemption DFS) are replayed op by op on PsV.Sync.step? (op kind, enabledness, worker states, mutex owner,
-      alpha indices, rank decrease, final choice); result must equal the thread-free sequential oracle bit for bit.
+      own bounded-preemption DFS) are replayed op by op on the DATA model stepD?/spurD? (control part compared with step?/spur?
+      at every step): op kind, enabledness, worker states, mutex owner, alpha indices, rank decrease, per-computation data
+      (alpha index, x unchanged, record == oracle trial), final outputs == seqD, exactly-once counts, teardown;
+      result must equal the thread-free sequential oracle bit for bit.
   (b) model -> code: the driver explores the model's state graph (incl. spurious wake-ups) and emits schedules covering every
       explored transition; each is forced through the real code (a forced thread that is not runnable = mismatch; no runnable
-      thread before return = deadlock); also the lost-wake-up witness schedule produced by the model of the unrepaired code.
-Supporting evidence: the real nnls_normal_block3 with real threads for OMP_NUM_THREADS 1..32, coefficients bitwise equal."""
+      thread before return = deadlock).
+  (A') the code AS PUBLISHED is regenerated on every run (working tree with fixes/C12-1.diff reverse-applied) and tied to the
+      model with repaired=false: the schedule of C12_lost_wakeup_reachable, emitted by the driver from the Lean definition, must
+      deadlock it; seeded schedules and model-generated (deadlock / covering) schedules both ways.
+Supporting evidence: the real nnls_normal_block3 with real threads for OMP_NUM_THREADS 1..32, coefficients bitwise equal; a
+difference is attributed by repeating the sweep on a copy with fixes/C12-2.diff applied (modify_factor's thread-dependent
+threshold) and by evaluating PsV.Sync.factorUpdate on the solver's own log."""
 import hashlib, json, os, subprocess, time
 import psvlib
 
@@ -22,6 +36,33 @@ SIG_LOST = "walk_descents:coordinator-waits-on-condvar-before-testing-worker-sta
 def build(ctx, mode="shipped"):
     return ctx.compile("c12h_" + mode, ["c12_harness.cpp"], mode=mode, defines=["PHOTOSPLINE_INCLUDES_SPGLAM"], repo_cpp=[],
                        repo_c=psvlib.FITTER_C, libs=psvlib.FITTER_LIBS, include_force={"src/fitter/cholesky_solve.c": SHIM})
+
+
+FIX = os.path.join(psvlib.VERIF, "fixes", "C12-1.diff")
+
+
+def build_published(ctx):
+    """The code AS PUBLISHED, regenerated on every run: the working tree's cholesky_solve.c with fixes/C12-1.diff
+    reverse-applied (if the tree is already unrepaired, i.e. the fix applies forwards, the tree's file itself).
+    Returns (exe, how) or (None, why)."""
+    src = os.path.join(psvlib.REPO, "src/fitter/cholesky_solve.c")
+    d = os.path.join(ctx.scratch, "published"); os.makedirs(d, exist_ok=True)
+    dst = os.path.join(d, "cholesky_solve.c")
+    with open(src) as f: text = f.read()
+    with open(dst, "w") as f: f.write(text)
+    r = subprocess.run(["patch", "-R", "-s", "--no-backup-if-mismatch", "-F", "0", dst, FIX], stdout=subprocess.PIPE, stderr=subprocess.STDOUT, text=True)
+    how = "HEAD with fixes/C12-1.diff reverse-applied"
+    if r.returncode != 0:
+        with open(dst, "w") as f: f.write(text)
+        r2 = subprocess.run(["patch", "-s", "--dry-run", "-F", "0", dst, FIX], stdout=subprocess.PIPE, stderr=subprocess.STDOUT, text=True)
+        if r2.returncode != 0:
+            return None, "fixes/C12-1.diff applies neither backwards nor forwards to %s: %s" % (src, (r.stdout + r2.stdout)[-300:])
+        how = "the working tree itself (fixes/C12-1.diff not applied there)"
+    others = [c for c in psvlib.FITTER_C if not c.endswith("cholesky_solve.c")]
+    exe = ctx.compile("c12h_published", ["c12_harness.cpp"], mode="shipped", defines=["PHOTOSPLINE_INCLUDES_SPGLAM"], repo_cpp=[],
+                      repo_c=others + [dst], libs=psvlib.FITTER_LIBS, include_force={dst: SHIM},
+                      extra=["-I" + os.path.join(psvlib.REPO, "src/fitter")])
+    return exe, how
 
 
 def harness(ctx, exe, cmds, timeout=900):
@@ -49,7 +90,19 @@ def parse_tr(line):
     h = kv(head.split()[1:]); ew = end.split(); e = kv(ew[2:])
     return {"n": int(h["n"]), "m": int(h["m"]), "policy": h.get("policy", "?"), "toks": toks.split(), "status": ew[1],
             "feasible": e.get("feasible", "-"), "calcs": e.get("calcs", "-"), "same": e.get("same", "0"), "diff": e.get("diff", "-"),
-            "sched": e.get("sched", "")}
+            "teardown": e.get("teardown", "?"), "sched": e.get("sched", "")}
+
+
+def computations(tr):
+    """per trial index: how many finished computations the code reported (worker U tokens with a data field)"""
+    cnt = [0] * tr["m"]; bad = []
+    for t in tr["toks"]:
+        f = t.split(":")
+        if len(f) == 5 and f[4].startswith("d"):
+            k, xdiff, receq = [int(v) for v in f[4][1:].split(",")]
+            if 0 <= k < tr["m"]: cnt[k] += 1
+            if xdiff != 0 or receq != 1 or not (0 <= k < tr["m"]): bad.append(t)
+    return cnt, bad
 
 
 def driver(ctx, lines, tag):
@@ -61,11 +114,13 @@ def driver(ctx, lines, tag):
 
 
 class Tally:
-    def __init__(self): self.runs = 0; self.scheds = set(); self.dead = 0; self.bad = 0; self.replayed = 0; self.ops = 0; self.by = {}
+    def __init__(self): self.runs = 0; self.scheds = set(); self.dead = 0; self.bad = 0; self.replayed = 0; self.ops = 0; self.by = {}; self.comps = 0; self.teardowns = 0
 
 
-def check_runs(ctx, T, prob, replies, what, expect_sched=None):
-    """prob: dict(pseed,nF,nneg,m,expect,resid). replies: TR lines. Oracle + model replay."""
+def check_runs(ctx, T, prob, replies, what, expect_sched=None, variant=1):
+    """prob: dict(pseed,nF,nneg,m,expect,resid). replies: TR lines. Oracle + model replay.
+    variant=1: the code under test is the working tree (model of the repaired protocol); variant=0: the regenerated published
+    code (model with repaired=false) — deadlocks are then expected behaviour and only the correspondence is checked."""
     rl, trs = [], []
     for line in replies:
         if not line.startswith("TR "): continue
@@ -75,7 +130,9 @@ def check_runs(ctx, T, prob, replies, what, expect_sched=None):
         rep = {"problem": {k: prob[k] for k in ("pseed", "nF", "nneg")}, "n_threads": tr["n"], "n_alpha": tr["m"], "schedule": tr["sched"],
                "harness_cmds": ["P %d %d %d" % (prob["pseed"], prob["nF"], prob["nneg"]), "RUN %d sched %s" % (tr["n"], tr["sched"])],
                "trace": " ".join(tr["toks"][-40:])}
-        if tr["status"] == "deadlock":
+        if tr["status"] == "deadlock" and variant == 0:
+            T.dead += 1
+        elif tr["status"] == "deadlock":
             T.dead += 1
             ctx.report(SIG_LOST if tr["toks"] and tr["toks"][-1].startswith("0:W") else "deadlock:" + (tr["toks"][-1] if tr["toks"] else "?"), rep,
                        "%s: walk_descents deadlocked with %d worker(s), n_alpha=%d: no thread runnable and the routine has not returned (last ops: %s); schedule %s"
@@ -87,7 +144,22 @@ def check_runs(ctx, T, prob, replies, what, expect_sched=None):
             T.bad += 1
             ctx.report("result-differs:" + tr["diff"], rep, "%s: result of walk_descents with %d worker(s) under schedule %s differs from the sequential result (%s)"
                        % (what, tr["n"], tr["sched"], tr["diff"]))
-        rl.append("R 1 %d %d %s %s %s %s %s %s" % (tr["n"], tr["m"], prob["resid"], tr["status"], tr["feasible"], tr["calcs"], prob["expect"], " ".join(tr["toks"])))
+        if tr["status"] == "ret":
+            # exactly-once and per-record determinism, measured on the code: every finished computation used the entry value of x,
+            # produced the oracle's record for its index, and no index was computed twice
+            cnt, badc = computations(tr); T.comps += sum(cnt)
+            if badc or any(v > 1 for v in cnt):
+                T.bad += 1
+                ctx.report("computation:" + (badc[0].split(":")[4] if badc else "twice"), rep_(prob, tr), "%s: a worker computation is not the single-threaded trial of its index (token %s) or an index was evaluated more than once (%s); %d workers, schedule %s"
+                           % (what, badc[:1], cnt, tr["n"], tr["sched"][:120]))
+            if tr["teardown"] == "bad":
+                T.bad += 1
+                ctx.report("teardown", rep_(prob, tr), "%s: pthread_mutex_destroy / pthread_cond_destroy reached while the mutex is owned, a thread waits on the condition variable, or a worker has not exited (%d workers, schedule %s)" % (what, tr["n"], tr["sched"][:120]))
+            elif tr["teardown"] == "ok": T.teardowns += 1
+            else:
+                ctx.tie_ok = False
+                if len(ctx.broken) < 5: ctx.broken.append({"kind": "walk_descents returned without destroying mutex and condition variable (teardown=%s)" % tr["teardown"], "schedule": tr["sched"]})
+        rl.append("R %d %d %d %s %s %s %s %s %s" % (variant, tr["n"], tr["m"], prob["resid"], tr["status"], tr["feasible"], tr["calcs"], prob["expect"], " ".join(tr["toks"])))
     if not rl: return
     out = driver(ctx, rl, "replay%d" % T.runs)
     if out is None: return
@@ -103,8 +175,183 @@ def check_runs(ctx, T, prob, replies, what, expect_sched=None):
                 ctx.violation({"problem": {k: prob[k] for k in ("pseed", "nF", "nneg")}, "n_threads": tr["n"], "n_alpha": tr["m"], "schedule": tr["sched"],
                                "harness_cmds": ["P %d %d %d" % (prob["pseed"], prob["nF"], prob["nneg"]), "RUN %d sched %s" % (tr["n"], tr["sched"])], "model_says": o},
                               "%s: the pthread-call trace of walk_descents/evaluate_descent (%d workers, schedule %s) is not a path of the verified protocol: %s" % (what, tr["n"], tr["sched"][:120], o))
+        elif tr["status"] == "ret" and kv(o.split()).get("cnt") != ",".join(str(v) for v in computations(tr)[0]):
+            ctx.tie_ok = False
+            if len(ctx.broken) < 6: ctx.broken.append({"kind": "evaluation counts of the code differ from the model's cnt", "model_says": o, "code": computations(tr)[0], "schedule": tr["sched"]})
         elif len(ctx.coverage["samples"]) < 5:
             ctx.coverage["samples"].append({"n_threads": tr["n"], "n_alpha": tr["m"], "policy": tr["policy"], "ops": len(tr["toks"]), "model": o})
+
+
+SIG_FACTOR = "modify_factor:update-vs-refactor-threshold-divided-by-get_nthreads"
+FIX2 = os.path.join(psvlib.VERIF, "fixes", "C12-2.diff")
+
+
+def run_sweep(ctx, exe, outname, npb, maxt, quick, gen_seed):
+    outp = os.path.join(ctx.scratch, outname)
+    rc, so, se = ctx.run([exe, outp, str(npb), str(maxt)], timeout=120 if quick else 600, env={"VERIF_SEED": str(gen_seed)})
+    lines = open(outp).read().splitlines() if os.path.exists(outp) else []
+    return rc, se, lines, [l.split() for l in lines if l.startswith("N ")]
+
+
+def build_factor_fixed(ctx):
+    """nnls sweep harness on a copy of the tree's cholesky_solve.c with fixes/C12-2.diff applied (regenerated on demand)."""
+    src = os.path.join(psvlib.REPO, "src/fitter/cholesky_solve.c")
+    d = os.path.join(ctx.scratch, "factorfixed"); os.makedirs(d, exist_ok=True)
+    dst = os.path.join(d, "cholesky_solve.c")
+    with open(src) as f: text = f.read()
+    with open(dst, "w") as f: f.write(text)
+    r = subprocess.run(["patch", "-s", "--no-backup-if-mismatch", "-F", "0", dst, FIX2], stdout=subprocess.PIPE, stderr=subprocess.STDOUT, text=True)
+    if r.returncode != 0:
+        return None, "fixes/C12-2.diff does not apply to %s: %s" % (src, r.stdout[-200:])
+    others = [c for c in psvlib.FITTER_C if not c.endswith("cholesky_solve.c")]
+    exe = ctx.compile("c12n_fixed", ["c12_nnls_harness.cpp"], mode="shipped", defines=["PHOTOSPLINE_INCLUDES_SPGLAM"], repo_cpp=[],
+                      repo_c=others + [dst], libs=psvlib.FITTER_LIBS, extra=["-I" + os.path.join(psvlib.REPO, "src/fitter")])
+    return exe, "working tree with fixes/C12-2.diff applied"
+
+
+def factor_decisions(ctx, exn, pidx, threads, gen_seed):
+    """The solver's own log (verbose) of problem pidx with 1 and with `threads` workers: the sequence of modify_factor decisions
+    (factor work, modification work, recomputed-from-scratch?).  Returns the first decision on which the two runs differ, with
+    PsV.Sync.factorUpdate evaluated by the driver on the logged numbers."""
+    import re
+    rc, so, se = ctx.run([exn, os.path.join(ctx.scratch, "nnls_verbose.out"), str(pidx + 1), str(threads)], timeout=300,
+                         env={"VERIF_SEED": str(gen_seed), "C12_VERBOSE": "1"})
+    segs, cur = {}, None
+    for l in so.splitlines():
+        m = re.match(r"=== P (\d+) T (\d+)", l)
+        if m: cur = (int(m.group(1)), int(m.group(2))); segs[cur] = []; continue
+        if cur is None: continue
+        m = re.search(r"Factor work: (-?\d+) Mod work: (-?\d+)", l)
+        if m: segs[cur].append({"fl": int(m.group(1)), "modfl": int(m.group(2)), "update": True}); continue
+        m = re.search(r"Recomputing factorization from scratch \(F\[(\d+)\], G\[(\d+)\], H1\[(\d+)\], H2\[(\d+)\]", l)
+        if m and segs[cur]: segs[cur][-1].update({"update": False, "nF": int(m.group(1)), "nH": int(m.group(3)) + int(m.group(4))})
+    a, b = segs.get((pidx, 1), []), segs.get((pidx, threads), [])
+    for i, (x, y) in enumerate(zip(a, b)):
+        if (x["fl"], x["modfl"], x["update"]) != (y["fl"], y["modfl"], y["update"]):
+            out = {"decision_index": i, "one_thread": x, "%d_threads" % threads: y}
+            if x["fl"] == y["fl"] and x["modfl"] == y["modfl"] and x["fl"] > 0 and x["modfl"] > 0:
+                known = x if not x["update"] else y          # the run that recomputed printed nF and nH1+nH2
+                q = ["F %d %d %d %d %d" % (t, known["nF"], x["fl"], x["modfl"], known["nH"]) for t in (1, threads)]
+                r = driver(ctx, q, "factor")
+                if r:
+                    model = [l.split()[-1] == "1" for l in r]
+                    out["model_factorUpdate"] = {"one_thread": model[0], "%d_threads" % threads: model[1]}
+                    if model != [x["update"], y["update"]]:
+                        ctx.tie_ok = False; ctx.broken.append({"kind": "modify_factor's logged decision differs from PsV.Sync.factorUpdate", "detail": out})
+            return out
+    return {"note": "no diverging decision found in the verbose logs", "decisions": [len(a), len(b)]}
+
+
+def sweep_and_report(ctx, exn, outname, npb, maxt, quick, gen_seed, label, quiet_sig=None):
+    rc, se, lines, ns = run_sweep(ctx, exn, outname, npb, maxt, quick, gen_seed)
+    sweep = {"solves": len(ns), "problems": npb, "threads": "1..%d" % maxt, "generator_seed": gen_seed, "all_equal_to_1_thread": all(w[4] == "1" for w in ns), "finished": bool(lines and lines[-1] == "DONE")}
+    cmd = "VERIF_SEED=%d c12_nnls_harness <out> %d %d" % (gen_seed, npb, maxt)
+    if rc == 124 or not sweep["finished"]:
+        last = ns[-1] if ns else None
+        ctx.report("real-threads:hang", {"cmd": cmd, "last_completed": last, "rc": rc, "stderr": se[-500:]},
+                   "%s: nnls_normal_block3 with real threads did not return (rc=%s) after problem/thread line %s — monotonic fit hangs" % (label, rc, last))
+    differing = [w for w in ns if w[4] != "1"]
+    if differing:
+        w = differing[0]
+        rep = {"problem_index": w[1], "n": w[2], "threads": w[3], "generator_seed": gen_seed, "cmd": cmd,
+               "differing_solves": len(differing), "differing_problems": sorted(set(x[1] for x in differing))}
+        # attribution: the same sweep on a regenerated copy of the tree in which modify_factor's update-vs-refactor threshold does not
+        # depend on get_nthreads() (= fixes/C12-2.diff applied).  If that copy gives identical coefficients for every worker count, the
+        # difference is the worker-count dependence of modify_factor (outside the hand-shake), else it is something new.
+        exf, how = build_factor_fixed(ctx)
+        sig = "real-threads:coefficients-differ"
+        if exf:
+            rc2, se2, lines2, ns2 = run_sweep(ctx, exf, "fixed_" + outname, npb, maxt, quick, gen_seed)
+            same2 = bool(ns2) and len(ns2) == len(ns) and all(x[4] == "1" for x in ns2) and lines2[-1] == "DONE"
+            rep["with_thread_independent_threshold"] = {"source": how, "solves": len(ns2), "all_equal_to_1_thread": same2}
+            sweep["with_thread_independent_threshold"] = rep["with_thread_independent_threshold"]
+            if same2: sig = SIG_FACTOR
+        else:
+            rep["with_thread_independent_threshold"] = {"unavailable": how}
+        if sig == SIG_FACTOR:
+            rep["first_diverging_decision"] = factor_decisions(ctx, exn, int(w[1]), int(w[3]), gen_seed)
+            sweep["first_diverging_decision"] = rep["first_diverging_decision"]
+        sweep["reported"] = sig
+        if sig != quiet_sig:
+            ctx.report(sig, rep, "%s: coefficients of nnls_normal_block3 with OMP_NUM_THREADS=%s differ bitwise from 1 thread (problem %s, n=%s; %d of %d solves differ)%s"
+                       % (label, w[3], w[1], w[2], len(differing), len(ns), "; with modify_factor's update-vs-refactor threshold made independent of get_nthreads() (fixes/C12-2.diff) all worker counts agree" if sig == SIG_FACTOR else ""))
+    return sweep
+
+
+def rep_(prob, tr):
+    return {"problem": {k: prob[k] for k in ("pseed", "nF", "nneg")}, "n_threads": tr["n"], "n_alpha": tr["m"], "schedule": tr["sched"],
+            "harness_cmds": ["P %d %d %d" % (prob["pseed"], prob["nF"], prob["nneg"]), "RUN %d sched %s" % (tr["n"], tr["sched"])]}
+
+
+def published_phase(ctx, T, exe_head, quick, dist):
+    """Tie of the model with repaired=false (C12_lost_wakeup_reachable, C12_unrepaired_deadlocks) to the code as published."""
+    seed = ctx.seed
+    exp, how = build_published(ctx)
+    info = {"source": how}
+    dist["published_code"] = info
+    if not exp:
+        ctx.tie_ok = False; ctx.broken.append({"kind": "cannot regenerate the published code", "why": how}); return
+    lw = driver(ctx, ["L"], "lw")
+    if not lw or not lw[0].startswith("LW "):
+        ctx.tie_ok = False; ctx.broken.append({"kind": "driver does not emit the lost-wake-up witness", "reply": lw}); return
+    w = kv(lw[0].split()[1:]); n, m, sched = int(w["n"]), int(w["m"]), w["sched"]
+    info["witness"] = {"n": n, "m": m, "schedule": sched}
+    TP = Tally()
+    # (a) exactly the schedule of the Lean theorem, on problems with n_alpha = m
+    nd = 0
+    for ps in range(3):
+        p = get_prob(ctx, exp, 300 * seed + ps, 1 + ps, m - 2)
+        if not p or p["m"] != m: ctx.tie_ok = False; ctx.broken.append({"kind": "no problem with n_alpha=%d" % m}); return
+        rc, out, err = harness(ctx, exp, ["P %d %d %d" % (p["pseed"], p["nF"], p["nneg"]), "RUN %d sched %s" % (n, sched)])
+        if rc != 0: return crash(ctx, rc, err, "published code, witness schedule")
+        trs = [parse_tr(l) for l in out if l.startswith("TR ")]
+        if len(trs) != 1 or trs[0]["status"] != "deadlock" or len(trs[0]["toks"]) != len(sched.split(",")):
+            ctx.tie_ok = False; ctx.broken.append({"kind": "the witness schedule of C12_lost_wakeup_reachable does not deadlock the published code", "reply": out[-1][-300:] if out else None})
+        else: nd += 1
+        check_runs(ctx, TP, p, out, "published code, witness schedule", variant=0)
+        # the same schedule on the working tree: executable (every forced step enabled), then runs to completion
+        rc, out, err = harness(ctx, exe_head, ["P %d %d %d" % (p["pseed"], p["nF"], p["nneg"]), "RUN %d sched %s" % (n, sched)])
+        if rc != 0: return crash(ctx, rc, err, "working tree, witness schedule")
+        check_runs(ctx, T, p, out, "lost-wake-up witness schedule of the Lean theorem on the working tree")
+    info["witness_deadlocks_published_code"] = nd
+    # (b) code -> model(repaired=false): seeded schedules on the published code; returning and deadlocking runs must both be paths
+    for k in range(4 if quick else 16):
+        nF = 1 + (k * 3 + seed) % 6; nneg = (k * 5 + seed) % (nF + 1)
+        p = get_prob(ctx, exp, 2000 * seed + k, nF, nneg)
+        if not p: ctx.tie_ok = False; ctx.broken.append({"kind": "published harness failed on P"}); return
+        cmds = ["P %d %d %d" % (p["pseed"], nF, nneg)]
+        for nn in sorted(set([1, 2, 3, p["m"] + 1])):
+            cmds += ["RUN %d np" % nn, "RUN %d delayc %d" % (nn, seed + k)]
+            cmds += ["RUN %d rand %d" % (nn, seed * 31 + 7 * k + r) for r in range(3)]
+            cmds += ["RUN %d pct %d 3" % (nn, seed * 17 + k)]
+        rc, out, err = harness(ctx, exp, cmds)
+        if rc != 0: return crash(ctx, rc, err, "published code, seeded schedules")
+        check_runs(ctx, TP, p, out, "published code, seeded schedule", variant=0)
+    # (c) model(repaired=false) -> code: shortest schedules into deadlocked model states must deadlock the published code,
+    #     transition-covering schedules must be executable on it
+    for (nn, mm) in ([(1, 2), (2, 3)] if quick else [(1, 2), (1, 3), (2, 3), (2, 4), (3, 4)]):
+        p = None
+        for ps in range(40):
+            q = get_prob(ctx, exp, 7000 * seed + 50 * nn + ps, min(8, max(1, mm - 2 + (ps % 2))), mm - 2)
+            if q and q["m"] == mm: p = q; break
+        if not p: continue
+        ex = driver(ctx, ["E 0 %d %d %s %d %d 0" % (nn, mm, p["resid"], 200000, 300 if quick else 3000)], "expub%d_%d" % (nn, mm))
+        if not ex: return
+        hd = kv(ex[0].split()[1:]); dls = [l[2:] for l in ex[1:] if l.startswith("D ")]; scheds = [l[2:] for l in ex[1:] if l.startswith("S ")]
+        info.setdefault("model_exploration", []).append({"workers": nn, "n_alpha": mm, "states": int(hd["states"]), "model_deadlocks": int(hd["deadlocks"]), "deadlock_schedules_forced": len(dls), "schedules_run": len(scheds)})
+        if int(hd["deadlocks"]) == 0 or not dls:
+            ctx.tie_ok = False; ctx.broken.append({"kind": "model of the published code has no deadlocked state", "config": [nn, mm]})
+        rc, out, err = harness(ctx, exp, ["P %d %d %d" % (p["pseed"], p["nF"], p["nneg"])] + ["RUN %d sched %s" % (nn, s_) for s_ in dls + scheds], timeout=900)
+        if rc != 0: return crash(ctx, rc, err, "published code, model schedules")
+        trs = [parse_tr(l) for l in out if l.startswith("TR ")]
+        for tr in trs[:len(dls)]:
+            if tr["status"] != "deadlock":
+                ctx.tie_ok = False
+                if len(ctx.broken) < 6: ctx.broken.append({"kind": "a deadlock schedule of the model (repaired=false) does not deadlock the published code", "schedule": tr["sched"], "status": tr["status"]})
+        check_runs(ctx, TP, p, out, "published code, schedule generated from the model", variant=0)
+    info.update({"runs": TP.runs, "deadlocked_runs": TP.dead, "traces_replayed_on_model_repaired_false": TP.replayed, "pthread_ops": TP.ops})
+    T.runs += TP.runs; T.ops += TP.ops; T.replayed += TP.replayed
+    ctx.note("phase A' (published code = %s): runs=%d deadlocks=%d replayed on the model with repaired=false=%d, witness deadlocks=%d/3" % (how, TP.runs, TP.dead, TP.replayed, nd))
 
 
 def get_prob(ctx, exe, pseed, nF, nneg):
@@ -141,6 +388,10 @@ def run(ctx):
         if rc != 0: return crash(ctx, rc, err, "witness schedule")
         check_runs(ctx, T, p, out, "lost-wake-up witness schedule (coordinator descheduled between unlock and lock)")
     ctx.note("phase A: witness schedules run=%d deadlocks=%d" % (T.runs, T.dead))
+
+    # ---- phase A': the code as published (regenerated) against the model with repaired=false ---------------------------
+    if ctx.violations == 0:
+        published_phase(ctx, T, exe, quick, dist)
 
     # ---- phase B: code -> model under random / PCT / starvation schedules ---------------------------------------------
     nprob = 14 if quick else 60
@@ -236,19 +487,13 @@ def run(ctx):
     if not exn:
         ctx.tie_ok = False; ctx.broken.append({"kind": "nnls sweep harness build failed"})
     elif ctx.violations == 0:
-        outp = os.path.join(ctx.scratch, "nnls.out"); npb, maxt = (8, 32) if quick else (40, 32)
-        rc, so, se = ctx.run([exn, outp, str(npb), str(maxt)], timeout=120 if quick else 600)
-        lines = open(outp).read().splitlines() if os.path.exists(outp) else []
-        ns = [l.split() for l in lines if l.startswith("N ")]
-        sweep = {"solves": len(ns), "problems": npb, "threads": "1..%d" % maxt, "all_equal_to_1_thread": all(w[4] == "1" for w in ns), "finished": bool(lines and lines[-1] == "DONE")}
-        if rc == 124 or not sweep["finished"]:
-            last = ns[-1] if ns else None
-            ctx.report("real-threads:hang", {"cmd": "VERIF_SEED=%d c12_nnls_harness <out> %d %d" % (seed, npb, maxt), "last_completed": last, "rc": rc, "stderr": se[-500:]},
-                       "nnls_normal_block3 with real threads did not return (rc=%s) after problem/thread line %s — monotonic fit hangs" % (rc, last))
-        for w in ns:
-            if w[4] != "1":
-                ctx.report("real-threads:coefficients-differ", {"problem_index": w[1], "n": w[2], "threads": w[3], "seed": seed}, "coefficients with OMP_NUM_THREADS=%s differ bitwise from 1 thread (problem %s)" % (w[3], w[1])); break
-        T.runs += len(ns)
+        npb, maxt = (8, 32) if quick else (40, 32)
+        # fixed regression instance (generator seed 2, problem 2, 1 vs 2 threads): the input on which modify_factor's thread-dependent
+        # threshold was found to change the coefficients; then the seeded sweep
+        reg = sweep_and_report(ctx, exn, "nnls_reg.out", 3, 2, quick, gen_seed=2, label="regression instance (generator seed 2)")
+        sweep = sweep_and_report(ctx, exn, "nnls.out", npb, maxt, quick, gen_seed=seed, label="seeded sweep", quiet_sig=reg.get("reported"))
+        sweep["regression_instance"] = reg
+        T.runs += sweep.get("solves", 0) + reg.get("solves", 0)
     dist["real_thread_sweep"] = sweep
     ctx.note("phase E: %s" % json.dumps(sweep))
 
@@ -260,12 +505,14 @@ def run(ctx):
     ctx.coverage["input_distribution"] = dist
     ctx.coverage["pthread_ops_replayed"] = T.ops
     ctx.coverage["traces_replayed_on_model"] = T.replayed
+    ctx.coverage["worker_computations_compared_with_oracle"] = T.comps
+    ctx.coverage["teardowns_checked"] = T.teardowns
     ctx.assumptions += [
         "POSIX semantics of mutex / condition variable / create / join as implemented by the harness scheduler and by PsV.Sync (cond_wait = release+enqueue, then re-acquire after wake; spurious wake-ups allowed)",
         "sequentially consistent memory: data-race freedom on the trial records is proved at the protocol level (C12_no_data_race); races inside CHOLMOD's shared cholmod_common (statistics counters, 'Caution to the wind' in cholesky_solve.h) are not modelled",
         "the shim disables sched_setaffinity (CPU pinning of workers is not part of the protocol)",
-        "residuals are abstracted as an arbitrary comparison less(a,b); bitwise equality of x/H1/residual is tested against a thread-free oracle, not proved",
-        "modify_factor's update-vs-refactor heuristic divides by get_nthreads(): a worker-count dependence outside the hand-shake, observed only through the OMP_NUM_THREADS sweep (fresh cholmod_common per solve)",
+        "the three straight-line pieces of floating-point code (worker body incl. calc_residual, residual comparison, copy loop) are deterministic functions of the values they read (Num.trial/lt/put); given that, schedule- and worker-count independence of x/H1/residual/feasible is proved (C12_data_*), and each worker record is compared bit for bit with the thread-free oracle's trial of the same index on every run",
+        "modify_factor's update-vs-refactor threshold divides by get_nthreads() in the published tree: a worker-count dependence of the coefficients outside the hand-shake (finding, C12_factor_update_depends_on_worker_count, fixes/C12-2.diff); it is observed through the OMP_NUM_THREADS sweep (fresh cholmod_common per solve) and attributed by repeating the sweep with the threshold fixed",
     ]
 
 
